@@ -148,6 +148,27 @@ def run(chk: core.Check, tier: str, seed: int) -> None:
                 continue
             recs.append({"op": "nondet", "q": core.enc_text(q), "doc": ed, "complete": complete, "runs": runs,
                          "outputs": [[core.enc_loc(loc) for loc in o] for o in outs]})
+    # the recursion limit counts from the node the descendant segment is applied to, in this mode too:
+    # data within the limit below that node must give permitted results, never an error
+    for lim, d in [(3, {"a": {"a": {"a": {"b": 1}}}}), (2, [[[1], 2], [[3]]]), (3, {"a": [{"a": [0, {"b": 0}]}], "b": 0}),
+                   (2, {"a": {"b": {"c": 0}}, "c": [[0]]})]:
+        lenv = probes.make_env(jp, [], [], nondeterministic=True, max_depth=lim)
+        ed = core.enc_value(d)
+        for q in ["$.a..*", "$[0]..*", "$.*..*", "$[*]..[0]", "$.a.a..b", "$.a..[?@]"]:
+            results, complete, runs = outputs_of(jp, lenv, q, d, cap)
+            total_runs += runs
+            outs = sorted(set(results), key=repr)
+            if any(o and o[0] == "raised" for o in outs):
+                det = probes.make_env(jp, [], [], max_depth=lim)
+                try:
+                    det.find(q, d)
+                    chk.violation({"clause": "nondeterministic find raised where the deterministic mode completes"},
+                                  {"query": q, "doc": d, "limit": lim, "outputs": [repr(o) for o in outs][:4]})
+                except jp.JSONPathError:
+                    pass
+                continue
+            recs.append({"op": "nondet", "q": core.enc_text(q), "doc": ed, "complete": complete, "runs": runs,
+                         "outputs": [[core.enc_loc(loc) for loc in o] for o in outs]})
     # larger documents: seeded outcomes, validity only
     n_big = 60 if tier == "quick" else 3000
     k = -1
